@@ -128,7 +128,9 @@ def via_requests(chunks, boundary, parts):
     import baize.wsgi as W
     import baize.asgi as A
     v = []
-    ctype = "multipart/form-data; boundary=" + boundary.decode()
+    # the media type is case-insensitive (RFC 9110 8.3.1): the spelling varies with the input
+    mt = ("multipart/form-data", "Multipart/Form-Data", "MULTIPART/FORM-DATA")[len(b"".join(chunks)) % 3]
+    ctype = mt + "; boundary=" + boundary.decode()
 
     def norm(form):
         out = []
